@@ -33,6 +33,10 @@ pub enum Src {
   /// interval(1ms).finalize(f).take(n): the downstream ends the stream, the
   /// finalize observer upstream never sees a terminal; only unsubscribe is left
   IntervalTake(usize),
+  /// a hot subject that has been torn down (`unsubscribe()` on a clone) before
+  /// the subscription is made: no terminal ever passes through finalize, the
+  /// upstream part reports closed from the start; only unsubscribe is left
+  HotShut,
 }
 
 #[derive(Clone, Debug, Serialize, Deserialize)]
@@ -71,7 +75,7 @@ impl Fin {
 pub struct C15Des;
 
 enum Handle {
-  L(Option<Box<dyn FnOnce()>>, Box<dyn Fn() -> bool>),
+  L(Option<Box<dyn FnOnce()>>, std::rc::Rc<dyn Fn() -> bool>),
 }
 
 impl Scenario for C15Des {
@@ -89,6 +93,7 @@ impl Scenario for C15Des {
       0 => Src::ColdSync(rng.below(3)),
       1 => Src::ColdErr,
       2 => Src::IntervalTake(rng.range(1, 2)),
+      3 => Src::HotShut,
       _ => Src::Hot,
     };
     let mut trigs = Vec::new();
@@ -114,10 +119,14 @@ impl Scenario for C15Des {
     let mut local = Subject::<'static, Val, E>::default();
     let mut shr = SubjectThreads::<Val, E>::default();
     let site = format!("{}{:?}", if case.threads_flavour { "finalize_threads/" } else { "finalize/" }, case.src).split('(').next().unwrap().to_string();
+    if case.src == Src::HotShut {
+      local.clone().unsubscribe();
+      shr.clone().unsubscribe();
+    }
     // build + subscribe
     let mut handle: Handle = if !case.threads_flavour {
       let src: rxrust::ops::box_it::BoxOp<'static, Val, E> = match &case.src {
-        Src::Hot => local.clone().box_it(),
+        Src::Hot | Src::HotShut => local.clone().box_it(),
         Src::ColdSync(n) => observable::from_iter((0..*n as i64).map(Val::I)).on_error_map(|_| 0).box_it(),
         Src::ColdErr => observable::of_result::<Val, E>(Err(5)).box_it(),
         Src::IntervalTake(_) => observable::interval(std::time::Duration::from_millis(1), local_sched()).map(|i| Val::I(i as i64)).on_error_map(|_| 0).box_it(),
@@ -138,11 +147,11 @@ impl Scenario for C15Des {
             u.unsubscribe()
           }
         })),
-        Box::new(move || u2.borrow().as_ref().map_or(true, |u| u.is_closed())),
+        std::rc::Rc::new(move || u2.borrow().as_ref().map_or(true, |u| u.is_closed())),
       )
     } else {
       let src: rxrust::ops::box_it::BoxOpThreads<Val, E> = match &case.src {
-        Src::Hot => shr.clone().box_it(),
+        Src::Hot | Src::HotShut => shr.clone().box_it(),
         Src::ColdSync(n) => observable::from_iter((0..*n as i64).map(Val::I)).on_error_map(|_| 0).box_it(),
         Src::ColdErr => observable::of_result::<Val, E>(Err(5)).box_it(),
         Src::IntervalTake(_) => observable::interval(std::time::Duration::from_millis(1), shared_sched()).map(|i| Val::I(i as i64)).on_error_map(|_| 0).box_it(),
@@ -163,7 +172,7 @@ impl Scenario for C15Des {
             u.unsubscribe()
           }
         })),
-        Box::new(move || u2.borrow().as_ref().map_or(true, |u| u.is_closed())),
+        std::rc::Rc::new(move || u2.borrow().as_ref().map_or(true, |u| u.is_closed())),
       )
     };
     let mut triggered = matches!(case.src, Src::ColdSync(_) | Src::ColdErr);
@@ -239,14 +248,15 @@ impl Scenario for C15Des {
           trace.push_str(if *t == Trig::Complete { "complete " } else { "error " });
         }
         Trig::Unsub | Trig::DropGuard => {
-          let Handle::L(u, _) = &mut handle;
+          let Handle::L(u, closed) = &mut handle;
+          let closed = closed.clone();
           if let Some(u) = u.take() {
             if triggered {
               repeats += 1;
             }
             if *t == Trig::DropGuard {
               // same path as unsubscribe_when_dropped(): guard drop calls unsubscribe
-              struct G(Option<Box<dyn FnOnce()>>);
+              struct G(Option<Box<dyn FnOnce()>>, std::rc::Rc<dyn Fn() -> bool>);
               impl Subscription for G {
                 fn unsubscribe(mut self) {
                   if let Some(f) = self.0.take() {
@@ -254,10 +264,10 @@ impl Scenario for C15Des {
                   }
                 }
                 fn is_closed(&self) -> bool {
-                  false
+                  (self.1)()
                 }
               }
-              let g = G(Some(u)).unsubscribe_when_dropped();
+              let g = G(Some(u), closed).unsubscribe_when_dropped();
               drop(g);
             } else {
               u();
